@@ -417,7 +417,8 @@ class ClientWebSocketResponse(Generic[_DecodeText]):
                 self._close_code = WSCloseCode.ABNORMAL_CLOSURE
                 raise
             except EofStream:
-                self._close_code = WSCloseCode.OK
+                # The stream ended without a Close frame.
+                self._close_code = WSCloseCode.ABNORMAL_CLOSURE
                 await self.close()
                 return WS_CLOSED_MESSAGE
             except ClientError:
